@@ -163,6 +163,8 @@ def deg_rhs(r, P0, dv):
             return deg_e(d[1], P0, dv), 0
         if d[0] == "cat":
             return max(deg_e(x, P0, dv) for x in d[1]), 0
+        if d[0] == "cont":
+            raise NotPolynomial("continuous draw: outside the executable reference semantics")
         return 0, 0
     return max(deg_e(pr, P0, dv) for pr, _ in r[1]), max(deg_e(e, P0, dv) for _, e in r[1])
 
@@ -309,6 +311,14 @@ def corpus():
     out.append((prog([("assign", "x", ("choice", [(v("p"), c(2)), (sub(c(1), v("p")), c(0))])), A("y", c(0))],
                      [A("y", add(v("y"), v("x"))), A("x", mul(c(F(1, 2)), v("x")))]),
                 [{"y": 1}, {"y": 2}], "init-choice-param"))
+    # 13./14. continuous families whose moments are polynomial in the parameter (validators only:
+    # the executable reference semantics has no continuous laws)
+    out.append((prog([A("x", c(0)), A("u", c(0))],
+                     [("assign", "u", ("draw", ("cont", "Normal", [v("p"), c(1)]))), A("x", add(v("x"), mul(v("q"), v("u"))))]),
+                [{"x": 1}, {"x": 2}], "continuous-normal-param"))
+    out.append((prog([A("x", c(1)), A("u", c(0))],
+                     [("assign", "u", ("draw", ("cont", "Uniform", [c(0), v("p")]))), A("x", add(mul(c(F(1, 2)), v("x")), v("u")))]),
+                [{"x": 1}, {"x": 2}], "continuous-uniform-param"))
     return out
 
 
